@@ -19,6 +19,14 @@ type Env struct {
 	pkg     *types.Package
 	inOld   bool
 	oldVars map[string]Term // overrides while inside old()
+	cellHook func(comp, sort, ref string) string // current-state cell reads (may use the cell cache)
+}
+
+func (env *Env) readCell(comp, sort, ref string) string {
+	if !env.inOld && env.cellHook != nil {
+		return env.cellHook(comp, sort, ref)
+	}
+	return fmt.Sprintf("(select %s %s)", env.curHeap()(comp, sort), ref)
 }
 
 func (e *Env) child() *Env {
@@ -233,8 +241,7 @@ func (env *Env) elab(x SExpr) Term {
 				return env.elabPkgMember(p, x.Name)
 			}
 		}
-		a := env.elab(x.X)
-		return env.selectField(a, x.Name, x)
+		return env.elabSel(x, false)
 	case *SIndex:
 		a := env.elab(x.X)
 		i := env.elab(x.I)
@@ -555,7 +562,28 @@ func (env *Env) elabPkgMember(p *types.Package, name string) Term {
 	return Term{}
 }
 
+// elabSel elaborates a selector chain. Intermediate embedded objects are kept as
+// references (keepRef) so that a.b.c does not materialise the whole struct a.b.
+func (env *Env) elabSel(x *SSel, keepRef bool) Term {
+	if id, ok := x.X.(*SIdent); ok {
+		if p := env.importedPkg(id.Name); p != nil {
+			return env.elabPkgMember(p, x.Name)
+		}
+	}
+	var a Term
+	if inner, ok := x.X.(*SSel); ok {
+		a = env.elabSel(inner, true)
+	} else {
+		a = env.elab(x.X)
+	}
+	return env.selectFieldOpt(a, x.Name, x, keepRef)
+}
+
 func (env *Env) selectField(a Term, name string, x SExpr) Term {
+	return env.selectFieldOpt(a, name, x, false)
+}
+
+func (env *Env) selectFieldOpt(a Term, name string, x SExpr, keepRef bool) Term {
 	vc := env.vc
 	if a.T == nil {
 		efail("%s: selecting field of typeless value", x)
@@ -608,6 +636,9 @@ func (env *Env) selectField(a Term, name string, x SExpr) Term {
 		cur = Term{S: fmt.Sprintf("(%s %s)", vc.accName(curT, idx), cur.S), Sort: vc.sortOf(ft), T: ft}
 		curT = ft
 		curIsPtr = false
+	}
+	if curIsPtr && keepRef {
+		return cur
 	}
 	if curIsPtr {
 		// final field is an object held in ref form: materialise its value,
@@ -687,7 +718,7 @@ func (env *Env) elabBinary(x *SBinary) Term {
 		a, b := env.elab(x.X), env.elab(x.Y)
 		env.wantInt(a, x.X)
 		env.wantInt(b, x.Y)
-		return mathInt(fmt.Sprintf("(%s %s %s)", x.Op, a.S, b.S))
+		return mathInt(env.vc.arith(x.Op, a.S, b.S))
 	case "/", "%":
 		a, b := env.elab(x.X), env.elab(x.Y)
 		env.wantInt(a, x.X)
@@ -844,13 +875,13 @@ func (env *Env) elabCall(x *SCall) Term {
 	case "bigval":
 		// bigval(p): mathematical value of *big.Int p
 		a := env.elab(x.Args[0])
-		return mathInt(fmt.Sprintf("(select %s %s)", env.curHeap()("BigVal", "(Array Int Int)"), a.S))
+		return mathInt(env.readCell("BigVal", "(Array Int Int)", a.S))
 	case "u256val":
 		a := env.elab(x.Args[0])
 		if a.T != nil && isUint256(a.T) {
 			return mathInt(a.S)
 		}
-		return mathInt(fmt.Sprintf("(select %s %s)", env.curHeap()("U256", "(Array Int Int)"), a.S))
+		return mathInt(env.readCell("U256", "(Array Int Int)", a.S))
 	case "pow2":
 		a := env.elab(x.Args[0])
 		return mathInt(vc.pow2Term(a.S))
@@ -918,7 +949,11 @@ func (env *Env) elabCall(x *SCall) Term {
 		}
 		rt := sig.Results().At(0).Type()
 		rs := vc.sortOf(rt)
-		argTerms := []string{recv.S, vc.versionOf(recv.S)}
+		ver := vc.versionOf(recv.S)
+		if env.inOld {
+			ver = vc.entryVersion()
+		}
+		argTerms := []string{recv.S, ver}
 		sorts := []string{"Int", "Int"}
 		for _, ax := range x.Args[2:] {
 			a := env.elab(ax)
